@@ -439,14 +439,17 @@ bool Session::sequence_check(const unsigned seqnum, const Message *msg)
 		{
 			slout_warn << "Resend request already sent";
 		}
-		if (_state == States::st_continuous)
+		else if (_state == States::st_logon_received)
+		{
+			// If SessionConfig has *not* been set, assume wrong logon sequence is checked.
+			if (!_sf || !_sf->get_ignore_logon_sequence_check_flag(_sf->_ses))
+				throw InvalidMsgSequence(seqnum, _next_receive_seq);
+		}
+		else	// any other established state (continuous, test request pending, ...): ask for the gap
 		{
 			send(generate_resend_request(_next_receive_seq));
 			do_state_change(States::st_resend_request_sent);
 		}
-		// If SessionConfig has *not* been set, assume wrong logon sequence is checked.
-		else if (!_sf || !_sf->get_ignore_logon_sequence_check_flag(_sf->_ses))
-			throw InvalidMsgSequence(seqnum, _next_receive_seq);
 		return false;
 	}
 
